@@ -5,9 +5,9 @@ rows = collections.OrderedDict()
 for d in sorted(glob.glob("/verif/seeded/*"), key=lambda x: (x.split("/")[-1].split("-")[0], int(x.split("-")[-1]))):
     pid, n = os.path.basename(d).split("-"); n = int(n)
     m = json.load(open(d + "/meta.json"))
-    r = rows.setdefault(pid, {"r1": 0, "r1first": 0, "r2": 0, "r2first": 0, "r3": 0, "r3first": 0, "miss": []})
+    r = rows.setdefault(pid, {"r1": 0, "r1first": 0, "r2": 0, "r2first": 0, "r3": 0, "r3first": 0, "r4": 0, "r4first": 0, "miss": []})
     missed = "initially_missed" in m.get("confirmed", {})
-    k = "r1" if n <= 5 else "r2" if n <= (11 if pid == "C01" else 10) else "r3"
+    k = "r1" if n <= 5 else "r2" if n <= (11 if pid == "C01" else 10) else "r3" if n <= 20 else "r4"
     r[k] += 1
     if not missed:
         r[k + "first"] += 1
@@ -15,8 +15,9 @@ for d in sorted(glob.glob("/verif/seeded/*"), key=lambda x: (x.split("/")[-1].sp
         t = m["confirmed"]["initially_missed"][:110]
         if t not in r["miss"]:
             r["miss"].append(t)
-print("| property | round 1 kept (caught at first) | round 2 kept (caught at first) | round 3 kept (caught at first) | what the misses led to |")
-print("|---|---|---|---|---|")
+print("| property | round 1 kept (caught at first) | round 2 kept (caught at first) | round 3 kept (caught at first) | round 4 kept (caught at first) | what the misses led to |")
+print("|---|---|---|---|---|---|")
 for pid, r in rows.items():
     r3 = "%d (%d)" % (r["r3"], r["r3first"]) if r["r3"] else "—"
-    print("| %s | %d (%d) | %d (%d) | %s | %s |" % (pid, r["r1"], r["r1first"], r["r2"], r["r2first"], r3, "; ".join(r["miss"]) or "—"))
+    r4 = "%d (%d)" % (r["r4"], r["r4first"]) if r["r4"] else "—"
+    print("| %s | %d (%d) | %d (%d) | %s | %s | %s |" % (pid, r["r1"], r["r1first"], r["r2"], r["r2first"], r3, r4, "; ".join(r["miss"]) or "—"))
